@@ -155,6 +155,17 @@ pub fn at_pause_end(sh: &Shadow, live: &HashSet<u64>) {
         }
         drop(boxed);
         // ---- 4. freed memory and random heap addresses: the mechanisms must agree -------------------
+        // start addresses of objects found dead at earlier pauses: their memory may have been
+        // released (chunks freed under a discontiguous layout), reused, or still belong to the space
+        let n = sh.dead_starts.len();
+        let skip = if n > 96 { rng.usize_below(n - 96) } else { 0 };
+        for a in sh.dead_starts.iter().skip(skip).take(96) {
+            if let Some(r) = resolve(*a, "freed") {
+                t.freed += 1;
+                t.empty_seen += (r.name == "empty") as u64;
+                check_agreement(*a, &r, &table, "freed");
+            }
+        }
         for (_, a, size) in sh.dead_probe.iter().take(32) {
             for x in [*a, start_of(*a) + *size - 8] {
                 if let Some(r) = resolve(x, "freed") {
